@@ -74,7 +74,12 @@ def _bytes_escape(match: Match[bytes]) -> bytes:
 
 def param_to_str(ident: str) -> str:
     return '$' + edgeql_quote.quote_ident(
-        ident, allow_reserved=True, allow_num=True)
+        ident,
+        allow_reserved=True,
+        allow_num=True,
+        # bare parameter names admit only ASCII digits
+        force=any(c.isnumeric() and not c.isascii() for c in ident),
+    )
 
 
 def ident_to_str(ident: str, allow_num: bool=False) -> str:
